@@ -186,3 +186,64 @@ theorem interrupted_offsets (s : NS) (p : Pt) (j : Nat) (hj : 2 ≤ j ∧ j ≤ 
       omega
 
 end NessaiVerif.Interrupt
+
+namespace NessaiVerif.Interrupt
+/-! ### `sortPts` sorts by likelihood and keeps every point -/
+
+theorem insPt_length (p : Pt) (l : List Pt) : (insPt p l).length = l.length + 1 := by
+  induction l with
+  | nil => rfl
+  | cons x xs ih => simp only [insPt]; split <;> simp [ih]
+
+theorem sortPts_length (l : List Pt) : (sortPts l).length = l.length := by
+  induction l with
+  | nil => rfl
+  | cons x xs ih => simp [sortPts, insPt_length, ih]
+
+theorem insPt_mem (p q : Pt) (l : List Pt) : q ∈ insPt p l ↔ q = p ∨ q ∈ l := by
+  induction l with
+  | nil => simp [insPt]
+  | cons x xs ih =>
+    simp only [insPt]
+    split
+    · simp
+    · simp only [List.mem_cons, ih]
+      constructor
+      · rintro (h | h | h)
+        · exact Or.inr (Or.inl h)
+        · exact Or.inl h
+        · exact Or.inr (Or.inr h)
+      · rintro (h | h | h)
+        · exact Or.inr (Or.inl h)
+        · exact Or.inl h
+        · exact Or.inr (Or.inr h)
+
+theorem insPt_sorted (p : Pt) (l : List Pt) (h : l.Pairwise (fun a b => a.key ≤ b.key)) :
+    (insPt p l).Pairwise (fun a b => a.key ≤ b.key) := by
+  induction l with
+  | nil => simp [insPt]
+  | cons x xs ih =>
+    simp only [insPt]
+    rw [List.pairwise_cons] at h
+    split
+    · rename_i hc
+      refine List.pairwise_cons.mpr ⟨?_, List.pairwise_cons.mpr h⟩
+      intro b hb
+      have hpx : p.key ≤ x.key := by rcases hc with hc | hc <;> omega
+      rcases List.mem_cons.mp hb with rfl | hb
+      · exact hpx
+      · exact Int.le_trans hpx (h.1 b hb)
+    · rename_i hc
+      refine List.pairwise_cons.mpr ⟨?_, ih h.2⟩
+      intro b hb
+      rcases (insPt_mem p b xs).mp hb with rfl | hb
+      · have : ¬ (b.key < x.key) := fun hh => hc (Or.inl hh)
+        omega
+      · exact h.1 b hb
+
+theorem sortPts_sorted (l : List Pt) : (sortPts l).Pairwise (fun a b => a.key ≤ b.key) := by
+  induction l with
+  | nil => simp [sortPts]
+  | cons x xs ih => exact insPt_sorted x _ ih
+
+end NessaiVerif.Interrupt
